@@ -82,6 +82,12 @@ func runC10(c *Ctx) {
 	checkGrowingListRescanned(c, p, fns)
 	checkLineKeyedTables(c, p, fns)
 	checkByteBufferIndex(c, p, fns)
+	checkListTableIndex(c, p, fns)
+	// shared with C04/C09: Match keeps no state between calls (R04.1) - a package-level map that calls fill in makes
+	// concurrent calls end in "fatal error: concurrent map read and map write"
+	if c.R.Filter == nil {
+		matchReadOnly(c, p, "R04.1")
+	}
 	// R10.6 no quadratic string accumulation
 	checkStringAccumulation(c, p, fns)
 	// R10.7 lazily built parts of a document exist wherever they are used
@@ -1107,4 +1113,66 @@ func checkByteBufferIndex(c *Ctx, p *core.Prog, fns []*ssa.Function) {
 	}
 	c.R.Check(bad == "", "R10.13", "a byte buffer is indexed by a computed position only behind a test of that position", v2pkg, fmt.Sprintf("%d accesses of a []byte at a computed index", n),
 		"a []byte is read at a computed index without a dominating `index < bound` test ("+bad+"): when the position is the end of the buffer - an input that fills the read window exactly - the access is out of range and Match/MatchFrom panic")
+}
+
+// checkListTableIndex: R10.14. A table of lists that is allocated with a length (make([][]T, n)) and indexed by a position that
+// is computed by arithmetic (an offset plus a base) is indexed behind a test of that position: the length and the largest
+// position are computed in different places, and an off-by-one between them is an index out of range for the inputs that
+// reach the last cell. A map has no such bound.
+func checkListTableIndex(c *Ctx, p *core.Prog, fns []*ssa.Function) {
+	n, bad := 0, ""
+	for _, fn := range fns {
+		if isTraceFn(fn) {
+			continue
+		}
+		for _, b := range fn.Blocks {
+			for _, in := range b.Instrs {
+				ia, ok := in.(*ssa.IndexAddr)
+				if !ok {
+					continue
+				}
+				sl, isSl := ia.X.Type().Underlying().(*types.Slice)
+				if !isSl {
+					continue
+				}
+				if _, elemSl := sl.Elem().Underlying().(*types.Slice); !elemSl {
+					continue
+				}
+				if _, isMake := core.Unspill(ia.X).(*ssa.MakeSlice); !isMake {
+					continue
+				}
+				idx := core.Unspill(ia.Index)
+				bo, isBo := idx.(*ssa.BinOp)
+				if !isBo || (bo.Op != token.ADD && bo.Op != token.SUB) {
+					continue
+				}
+				// the index of a range loop (i+1 over a phi from -1) is in range by construction
+				if ph, isPhi := bo.X.(*ssa.Phi); isPhi {
+					fromMinusOne := false
+					for _, e := range ph.Edges {
+						if k, isK := core.ConstInt(e); isK && k == -1 {
+							fromMinusOne = true
+						}
+					}
+					if fromMinusOne {
+						continue
+					}
+				}
+				n++
+				guarded := false
+				for _, f := range core.FactsAt(b) {
+					if cmp, ok := f.AsCmp(); ok {
+						if core.Unspill(cmp.X) == idx || core.Unspill(cmp.Y) == idx {
+							guarded = true
+						}
+					}
+				}
+				if !guarded && bad == "" {
+					bad = core.ShortFn(fn) + ": " + p.Pos(ia.Pos())
+				}
+			}
+		}
+	}
+	c.R.Check(bad == "", "R10.14", "a table of lists with a fixed length is indexed by a computed position only behind a test of it", v2pkg, fmt.Sprintf("%d such accesses", n),
+		"a table allocated with make is indexed by a computed position without a test of that position ("+bad+"): where the length and the largest position disagree by one, the inputs that reach the last cell make Match panic")
 }
